@@ -10,5 +10,6 @@ def run(res):
         theorem_note="Properties/C05.v: C05_new_master_is_128bit_order (about the isNewMaster regenerated from /repo/server/server.go), C05_reported_is_running_max, C05_primary_is_latest_not_lower",
         trusted=["Coq 8.16.1 kernel + vm_compute", "tools/gen_decisions (Go AST serialiser) and Base/GoLite.v semantics",
                  "correspondence harness (fake Modify streams, barrier op), sequential per-message atomicity of the server model"],
-        assumptions=["each scripted message is handled atomically (concurrent announcements: see C11)",
+        extra_runs=[("c05conc", 40 if res.tier == "quick" else 600)],
+        assumptions=["each scripted message is handled atomically in the model; concurrent announcements are exercised on the implementation (vh c05conc: 2-6 sessions announcing at the same moment on fresh servers, quiescent id = maximum, primary announced it) and proved for every entry order of an exclusive critical section in C11_election_max_any_order",
                      "election ids are pairs of 64-bit words (inrange)"])
